@@ -181,6 +181,7 @@ func ShapesFor(f Field, c *Counter, gob bool) []Shaped {
 		return []Shaped{
 			{"source-full", reflect.ValueOf(ap.Source{MediaType: "text/markdown", Content: ap.DefaultNaturalLanguageValue("txt-*source*")})},
 			{"source-content", reflect.ValueOf(ap.Source{Content: ap.DefaultNaturalLanguageValue("txt-source only")})},
+			{"source-mime", reflect.ValueOf(ap.Source{MediaType: "text/markdown"})},
 			{"source-nlN", reflect.ValueOf(ap.Source{MediaType: "text/markdown", Content: ap.NaturalLanguageValues{{Ref: "en", Value: ap.Content("txt-a")}, {Ref: "fr", Value: ap.Content("txt-b")}}})},
 		}
 	case KPublicKey:
